@@ -538,7 +538,17 @@ func (fr *frame) applyContract(d *Decl, callee *ssa.Function, sig *types.Signatu
 		}
 	}
 	// preconditions (only for functions of the program under contract; externs' requires too)
+	safetyOnly := true
+	for _, p := range d.Props() {
+		if p != "C05" {
+			safetyOnly = false
+		}
+	}
 	for _, c := range d.Get("requires") {
+		if fr.rootFr.nosafety && safetyOnly && d.Kind == "func" {
+			vc.note("safety preconditions of " + key + " are not checked in " + vc.fn + " (declared nosafety)")
+			continue
+		}
 		f := env.trBool(c.E)
 		lab := fmt.Sprintf("%s%s#%d", fr.prefix, shortKey(key), ord)
 		if c.Label != "" {
